@@ -22,6 +22,7 @@ RULE = ("scenarios with 2-3 endpoints (threads), up to 4 sends/receives each: on
         "message; both endpoints rendezvous in every start order."
         ' Plus free-running threads with 66 000 - 300 000 pending messages and a StructuredMessage object refilled and sent again. '
         ' Further scenarios: two receiving threads of one endpoint on one socket, non-blocking broadcast receives, three broadcast endpoints listing their remotes in cyclic order, an endpoint that gives up connecting (timeout 0) before its peer arrives, zero-length messages, a late starter with timeout 0. '
+        " Two complete sessions on the same names one after the other. Own-process probe: a socket that is cyclic garbage is finalized by the collector k allocations into a recv / close / send of another socket (k swept), i.e. inside the hub\'s locked sections. Callback delivery on a broadcast channel (known finding). "
         "Non-trivial = the schedule contains a preemption inside "
         "a hub/socket method; distinct = distinct (scenario, choice list).")
 ASSUMPTIONS = ["interleavings at statement granularity inside the thread-socket modules; finer (bytecode-level) interleavings are not explored",
